@@ -106,9 +106,10 @@ class Rec:
     """symbolic instance of a modelled class"""
     e2_symbolic = True
 
-    def __init__(self, cls, fields=None):
+    def __init__(self, cls, fields=None, born=True):
         self.cls = cls
         self.f = fields if fields is not None else {}
+        self.born = born          # guard under which the record was created (fields may be initialised under it)
 
     def __repr__(self):
         return f"Rec<{self.cls.__name__}>({self.f})"
@@ -223,12 +224,15 @@ class _Ctx:
             self.s.add(a)
         self.nq = 0
         self.t = 0.0
+        self.model = None         # a model of assumptions + pc (+ assumed unwinding assertions), when one is known
+        self.last_model = None
 
     def check(self, cond):
         """incremental solver first (short timeout); one-shot QF_BV solver as the fallback"""
         t0 = time.time()
         r = self.s.check(cond)
         self.nq += 1
+        self.last_model = self.s.model() if r == z3.sat else None
         if r == z3.unknown:
             s = z3.SolverFor("QF_BV")
             s.set("timeout", self.timeout_ms)
@@ -239,6 +243,7 @@ class _Ctx:
             s.add(cond)
             r = s.check()
             self.nq += 1
+            self.last_model = s.model() if r == z3.sat else None
         self.t += time.time() - t0
         return r
 
@@ -281,7 +286,7 @@ class _Frame:
 class Interp:
     def __init__(self, W, classes=(), loop_mode=None, default_loop="fork", max_unroll=80, always_interpret=(),
                  attr_stubs=None, fn_stubs=None, decide_timeout_ms=30000, mutants=None, unroll=None,
-                 fork_on_return=False):
+                 fork_on_return=False, drop_attr_stores=()):
         self.W = W
         self.classes = set(classes)
         self.loop_mode = dict(loop_mode or {})       # qualname -> "merge" | "fork"
@@ -295,6 +300,7 @@ class Interp:
         self.src = {}
         self.nomerge = set()
         self.unroll_hint = {}
+        self.drop_attr_stores = set(drop_attr_stores)
         self.fork_on_return = fork_on_return          # early exits (`if c: return/raise`) fork instead of merging
         self.unroll = dict(unroll or {})              # qualname -> initial unrolling of its merged loops (validated by the
                                                       # deferred unwinding assertion, raised automatically when too small)
@@ -572,8 +578,24 @@ class Interp:
         if ctx.pos < len(ctx.prefix):
             v = ctx.prefix[ctx.pos]
         else:
-            rt = ctx.check(cond)
-            rf = ctx.check(z3.Not(cond))
+            # concolic shortcut: a model of the path so far already witnesses one of the two polarities,
+            # so only the other polarity needs the solver (ctx.model is a model of assumptions + pc, or None)
+            mv = None
+            if ctx.model is not None:
+                e = ctx.model.eval(cond, model_completion=True)
+                mv = True if z3.is_true(e) else (False if z3.is_false(e) else None)
+            m_t = m_f = None
+            if mv is True:
+                rt, m_t = z3.sat, ctx.model
+            else:
+                rt = ctx.check(cond)
+                m_t = ctx.last_model if rt == z3.sat else None
+            if mv is False:
+                rf, m_f = z3.sat, ctx.model
+            else:
+                rf = ctx.check(z3.Not(cond))
+                m_f = ctx.last_model if rf == z3.sat else None
+            ctx.model = m_t if rt == z3.sat else m_f
             if rt == z3.unknown or rf == z3.unknown:
                 raise Inconclusive("path decision undecided within the decision timeout")
             if rt == z3.sat and rf == z3.sat:
@@ -615,6 +637,7 @@ class Interp:
         # that did finish the loop; the path is only accepted once _check_unwind has proved the assertion
         self.ctx.unwind.append((g, s))
         self.ctx.s.add(z3.Not(g))
+        self.ctx.model = None
         return False
 
     def decide_guarded(self, c):
@@ -845,7 +868,7 @@ class Interp:
         symbolic = sym_deep(list(args)) or sym_deep(list(kwargs.values()))
         if isinstance(f, type):
             if f in self.classes and (symbolic or f in self.always_interpret):
-                r = Rec(f, {})
+                r = Rec(f, {}, born=self.g)
                 init = inspect.getattr_static(f, "__init__")
                 self.call(init, [r] + list(args), kwargs)
                 return r
@@ -1104,9 +1127,16 @@ class Interp:
             fr.loc[t.id] = v
         elif isinstance(t, ast.Attribute):
             o = self.ev(t.value, fr)
+            if t.attr in self.drop_attr_stores:
+                return                                 # memo attribute (stub): the store is dropped, hasattr stays False
             if not isinstance(o, Rec):
                 raise NotEncodable(f"attribute store on a real object ({type(o).__name__}.{t.attr})")
-            if self.g is not True and t.attr in o.f:
+            if self.g is not True and t.attr not in o.f:
+                fresh = o.born is self.g or (not isinstance(o.born, bool) and not isinstance(self.g, bool) and o.born.eq(self.g))
+                if not fresh:
+                    # a record has a fixed set of fields: creating one under a narrower guard cannot be merged
+                    self._fail_merge(self.merge_stack[-1:])
+            elif self.g is not True:
                 try:
                     v = self.merge(g_expr(self.g), v, o.f[t.attr])
                 except _MergeFail:
@@ -1784,7 +1814,7 @@ def minimize_model(s, variables, tally=None, budget_s=20.0):
 
 
 def prove(I, thunk, assumptions, variables, native, tally, timeout_s=60, expect=None, on_witness=None,
-          minimize=True, max_witnesses=6, cross_check=None, extra_paths_ok=True):
+          minimize=True, max_witnesses=6, cross_check=None, cross_timeout_ms=4000):
     """Decide `thunk` (an interpreted law returning a truth value) for all values of `variables`
     satisfying `assumptions`.
 
@@ -1882,7 +1912,7 @@ def prove(I, thunk, assumptions, variables, native, tally, timeout_s=60, expect=
                 if cross_check is not None and cross_check():
                     try:
                         t0 = time.time()
-                        cr = cvc5_check(s.to_smt2(), timeout_ms=min(to_ms, 10000))
+                        cr = cvc5_check(s.to_smt2(), timeout_ms=min(to_ms, cross_timeout_ms))
                         tally.count("cvc5-" + cr, time.time() - t0)
                         res["crosschecked"] += 1
                         if cr == "sat":
